@@ -60,6 +60,4 @@ func VerifC18_SaleOrigin() {
 	}
 }
 
-var VerifEntries = map[string]func(){
-	"VerifC18_SaleOrigin": VerifC18_SaleOrigin,
-}
+var _ = vEntry("VerifC18_SaleOrigin", VerifC18_SaleOrigin)
